@@ -130,9 +130,53 @@ func randomShapes(rng *vh.Rng, n int) []shape {
 		if rng.Chance(1, 6) {
 			funcs[nf-1] = append(funcs[nf-1], L.Panic())
 		}
-		out = append(out, callShape(fmt.Sprintf("random#%d", r), rng.Intn(3), funcs...))
+		sh := callShape(fmt.Sprintf("random#%d", r), rng.Intn(3), funcs...)
+		if divergent(funcs) {
+			// not a probe: unbounded recursion (compiled Go would overflow its stack as well).  Such programs used to be
+			// dropped only after running them (hook-call budget "runaway"), but a deferred closure that recovers the
+			// runaway panic and recurses again overflows the 1 GB Go stack of the harness process (fatal, not recoverable).
+			skippedDivergent++
+			continue
+		}
+		out = append(out, sh)
 	}
 	return out
+}
+
+var skippedDivergent int
+
+// divergent: some function re-raises its own parameter with `for n < C { ...; n++ }` (C >= 2) and AFTERWARDS reaches a
+// self-call `if n > 0 { fK(n-1) }` (directly, under an if, or inside a deferred closure whose argument n is evaluated
+// after the loop): every activation then starts another one.
+func divergent(funcs [][]L.Stmt) bool {
+	var selfCall func(s L.Stmt, f int) bool
+	selfCall = func(s L.Stmt, f int) bool {
+		if s.Op == "call" && s.F == f {
+			return true
+		}
+		for _, b := range s.Body {
+			if selfCall(b, f) {
+				return true
+			}
+		}
+		for _, b := range s.Else {
+			if selfCall(b, f) {
+				return true
+			}
+		}
+		return false
+	}
+	for f, body := range funcs {
+		loop := false
+		for _, s := range body {
+			if s.Op == "forlt" {
+				loop = true
+			} else if loop && selfCall(s, f) {
+				return true
+			}
+		}
+	}
+	return false
 }
 
 type stepIn struct {
@@ -235,7 +279,7 @@ func main() {
 		nRandom = a.N
 	}
 	rep := vh.NewReport(a, fmt.Sprintf("corpus/C12 histories first; 29 fixed probe programs (straight code, nested/recursive calls, loops running past the 70-statement prologue, "+
-		"defer of compiled hook / closure / named function, recover, recover-and-repanic, panics inside deferred calls, interpreted panics, top-level blocks with defers) + %d PRNG programs; "+
+		"defer of compiled hook / closure / named function, recover, recover-and-repanic, panics inside deferred calls, interpreted panics, top-level blocks with defers) + %d PRNG programs (those whose static shape recurses without bound - a self-call after a loop that re-raises the parameter - or whose undisturbed run makes > 400 hook calls are not probes); "+
 		"for each program N = hook calls of the undisturbed run, then for EVERY k in 1..N a fresh interpreter whose hook panics at its k-th call (k=0: no injected fault), followed by a second evaluation "+
 		"of the same form with a PRNG k2 in the same interpreter; observed per evaluation: panic class, later hook calls, successful recover() calls, global x, fast.VerifRunState; "+
 		"after each history a 22-evaluation defer/recover/closure battery is compared with an interpreter that saw only the definitions; "+
@@ -334,5 +378,6 @@ func main() {
 	}
 	sessionStream(a, rng.Fork(), rep, wd, nSess)
 	rep.Extra["histories_with_escaping_panic"] = escaped
+	rep.Extra["prng_programs_skipped_unbounded_recursion"] = skippedDivergent
 	rep.Write()
 }
